@@ -151,6 +151,8 @@ class Runner:
         s.model_res = r["res"]
         if op["op"] == "w.dead":
             s.model_res = s.impl_res      # a call on a removed node: no model operation (the state must stay as it is)
+        if op.get("_nid_refused"):
+            s.model_res = s.impl_res if s.impl_res != "ok" else "refused (node_id in use / not a valid id)"
         s.problems = []
         if s.impl_res != s.model_res:
             s.problems.append(f"outcome: implementation {s.impl_res}, model {s.model_res}")
@@ -288,6 +290,9 @@ def del_keys(impl, ti, labels=()):
     return out
 
 
+NID = [0]
+
+
 def via_shortcut(rng, impl, ti, op):
     """an add(<node>) / add(<tree>) through one of the four shortcuts of add_child (append_child, prepend_child, prepend_sibling,
     append_sibling): `before` is what the shortcut passes on, the call itself carries no `before`"""
@@ -348,6 +353,18 @@ def random_op(rng, impl, ti, *, labels, malformed=0.1, typed=False, ops=None, di
             op["before_explicit"] = True
         if rng.random() < 0.3:
             op["tree_api"] = False
+        if rng.random() < 0.05 and not mal:
+            # an explicit node_id: a fresh one, or - in another spelling - one that a node of the tree already carries
+            NID[0] += 1
+            fresh = 7000 + NID[0]
+            r_ = rng.random()
+            if r_ < 0.45 or not paths:
+                op["nid"] = rng.choice([fresh, str(fresh), float(fresh)])
+            elif r_ < 0.5:
+                op["nid"] = 0
+            else:
+                # the id of an existing node (named by its path: ids of objects differ from run to run), spelled as int / str / float / +0.5
+                op["nid_ref"] = [rng.choice(paths), rng.choice(["int", "str", "float", "half"])]
         return op
     if k == "shortcut":
         via = rng.choice(["append_child", "prepend_child", "prepend_sibling", "append_sibling"])
